@@ -773,3 +773,524 @@ Proof.
 Qed.
 
 End Lift.
+
+(* ------------------------------------------------------------------ *)
+(* C05: no panic                                                       *)
+(* ------------------------------------------------------------------ *)
+
+Lemma np_ok {A} (a : A) : np (Ok a). Proof. reflexivity. Qed.
+Lemma np_err {A} e : np (@Err A e). Proof. reflexivity. Qed.
+Lemma np_fuel {A} : np (@Fuel A). Proof. reflexivity. Qed.
+#[global] Hint Resolve np_ok np_err np_fuel : np.
+
+Lemma parse_blocks_np n : forall b, zlen b < Z.of_nat n -> np (parse_blocks n b).
+Proof.
+  induction n as [|n IH]; intros b L; cbn [parse_blocks].
+  - pose proof (zlen_nonneg b). lia.
+  - destruct (zlen b <? 8) eqn:L8; [reflexivity|].
+    destruct ((rd 0 4 b =? 0) && (rd 4 4 b =? 0)); [reflexivity|].
+    apply np_bind; [|intros; reflexivity].
+    apply IH. rewrite zlen_zskipn_gen by lia. lia.
+Qed.
+
+Section NPLoopS.
+Variable rs : Z -> bytes -> Z -> outcome (node * Z).
+Hypothesis rs_np : forall pol b i, bytes_ok b = true -> np (rs pol b i).
+Hypothesis rs_ext : forall pol b i n p, bytes_ok b = true -> rs pol b i = Ok (n, p) -> 0 <= sec_ext n.
+
+Lemma sections_loop_np n : forall b pol off i,
+  bytes_ok b = true -> (0 < n)%nat -> zlen b - off < Z.of_nat n ->
+  np (sections_loop rs n b pol off i).
+Proof.
+  induction n as [|n IH]; intros b pol off i OK N0 M; [lia|]. cbn [sections_loop].
+  destruct (off <? zlen b) eqn:Lt; [|reflexivity].
+  apply np_bind; [apply rs_np, bytes_ok_zskipn, OK|].
+  intros [s pol'] Hs.
+  pose proof (rs_ext _ _ _ _ _ (bytes_ok_zskipn off b OK) Hs) as E.
+  destruct (sec_ext s =? 0) eqn:E0; [reflexivity|].
+  apply np_bind; [|intros [r pol''] _; reflexivity].
+  pose proof (align4_bounds (off + sec_ext s)).
+  apply IH; auto; lia.
+Qed.
+End NPLoopS.
+
+Section NPLoopF.
+Variable rf : Z -> bytes -> outcome (option node * Z).
+Hypothesis rf_np : forall pol b, bytes_ok b = true -> np (rf pol b).
+Hypothesis rf_ext : forall pol b f p, bytes_ok b = true -> rf pol b = Ok (Some f, p) -> 0 <= file_ext f.
+
+Lemma files_loop_np n : forall data length pol off,
+  bytes_ok data = true -> (0 < n)%nat -> length - off < Z.of_nat n ->
+  np (files_loop rf n data length pol off).
+Proof.
+  induction n as [|n IH]; intros data length pol off OK N0 M; [lia|]. cbn [files_loop].
+  destruct (off + 24 <=? length) eqn:Lt; [|reflexivity].
+  pose proof (align8_bounds off) as AB.
+  destruct (length <? align8 off + 24); [reflexivity|].
+  assert (OKs : bytes_ok (sub (align8 off) (length - align8 off) data) = true) by (apply bytes_ok_sub; auto).
+  apply np_bind; [apply rf_np, OKs|].
+  intros [[f|] pol'] Hf; [|reflexivity].
+  pose proof (rf_ext _ _ _ _ OKs Hf) as E.
+  destruct (file_ext f =? 0) eqn:E0; [reflexivity|].
+  apply np_bind; [|intros [[r pol''] fs] _; reflexivity].
+  apply IH; auto; lia.
+Qed.
+End NPLoopF.
+
+Section NPSec.
+Variable dec : Z -> bytes -> option bytes.
+Variable u2s : bytes -> bytes.
+Variable rs : Z -> bytes -> Z -> outcome (node * Z).
+Variable rfv : Z -> bytes -> Z -> bool -> outcome (node * Z).
+Hypothesis Hdec : dec_ok dec.
+Hypothesis rs_np : forall pol b i, bytes_ok b = true -> np (rs pol b i).
+Hypothesis rs_ext : forall pol b i n p, bytes_ok b = true -> rs pol b i = Ok (n, p) -> 0 <= sec_ext n.
+Hypothesis rfv_np : forall pol b o r, bytes_ok b = true -> np (rfv pol b o r).
+
+Lemma section_body_np pol buf i : bytes_ok buf = true ->
+  np (section_body dec u2s rs rfv pol buf i).
+Proof.
+  intros OK. unfold section_body.
+  destruct (zlen buf <? 4); [reflexivity|].
+  apply np_bind.
+  { destruct (known_section _); [|reflexivity].
+    destruct (_ =? 16777215); [|reflexivity].
+    destruct (zlen buf <? 8); [reflexivity|].
+    destruct (_ =? 4294967295); reflexivity. }
+  intros [hlen ext] _.
+  destruct (zlen buf <? ext); [reflexivity|].
+  set (sbuf := sub 0 ext buf).
+  assert (OKs : bytes_ok sbuf = true) by (apply bytes_ok_sub; auto).
+  destruct (rd 3 1 buf =? 2).
+  { destruct (zlen sbuf <? hlen + 20); [reflexivity|].
+    destruct (zlen sbuf <? rd (hlen + 16) 2 sbuf) eqn:LD; [reflexivity|].
+    pose proof (rd_nonneg (hlen + 16) 2 sbuf OKs) as D0.
+    set (kind := if negb (Z.land (rd (hlen + 18) 2 sbuf) 1 =? 0) then codec_kind (sub hlen 16 sbuf) else 0).
+    apply np_bind.
+    - destruct (kind =? 0); [reflexivity|].
+      rewrite slice_ok by lia. destruct (dec kind _); reflexivity.
+    - intros [encap kind'] Hek.
+      assert (OKe : bytes_ok encap = true).
+      { destruct (kind =? 0); [injection Hek as <- <-; reflexivity|].
+        rewrite slice_ok in Hek by lia.
+        destruct (dec kind _) as [e|] eqn:D; injection Hek as <- <-; [|reflexivity].
+        eapply Hdec; [|exact D]. apply bytes_ok_sub; auto. }
+      apply np_bind; [|intros [kids pol'] _; reflexivity].
+      apply (sections_loop_np rs rs_np rs_ext); auto; lia. }
+  destruct (rd 3 1 buf =? 21).
+  { destruct (zlen sbuf <=? hlen); reflexivity. }
+  destruct (rd 3 1 buf =? 20).
+  { destruct (zlen sbuf <=? hlen + 2); reflexivity. }
+  destruct (rd 3 1 buf =? 23).
+  { destruct (zlen sbuf <=? hlen); [reflexivity|].
+    apply np_bind; [apply rfv_np, bytes_ok_zskipn, OKs|intros [v pol'] _; reflexivity]. }
+  destruct (_ || _).
+  { destruct (zlen sbuf <=? hlen); reflexivity. }
+  reflexivity.
+Qed.
+
+End NPSec.
+
+Section NPFile.
+Variable nvar : bytes -> option bytes.
+Variable rs : Z -> bytes -> Z -> outcome (node * Z).
+Hypothesis rs_np : forall pol b i, bytes_ok b = true -> np (rs pol b i).
+Hypothesis rs_ext : forall pol b i n p, bytes_ok b = true -> rs pol b i = Ok (n, p) -> 0 <= sec_ext n.
+
+Lemma file_body_np pol buf : bytes_ok buf = true -> np (file_body nvar rs pol buf).
+Proof.
+  intros OK. unfold file_body.
+  destruct (zlen buf <? 24); [reflexivity|].
+  apply np_bind.
+  { destruct (_ =? 16777215); [|reflexivity].
+    destruct (zlen buf <? 32); [|reflexivity].
+    destruct (forallb _ _); reflexivity. }
+  intros [ext doff] Hed.
+  assert (D0 : 0 <= doff).
+  { destruct (_ =? 16777215); [|injection Hed as <- <-; lia].
+    destruct (zlen buf <? 32); [|injection Hed as <- <-; lia].
+    destruct (forallb _ _); [injection Hed as <- <-; lia|discriminate]. }
+  destruct (_ && _); [reflexivity|].
+  destruct (zlen buf <? ext) eqn:LE; [reflexivity|].
+  apply np_bind.
+  { destruct (_ && _); [|reflexivity]. destruct (_ <=? doff); reflexivity. }
+  intros nv _.
+  destruct (negb _); [reflexivity|].
+  apply np_bind; [|intros [kids pol'] _; reflexivity].
+  apply (sections_loop_np rs rs_np rs_ext); [apply bytes_ok_sub; auto|lia|].
+  rewrite zlen_sub0 by lia. lia.
+Qed.
+
+End NPFile.
+
+Section NPVol.
+Variable rf : Z -> bytes -> outcome (option node * Z).
+Hypothesis rf_np : forall pol b, bytes_ok b = true -> np (rf pol b).
+Hypothesis rf_ext : forall pol b f p, bytes_ok b = true -> rf pol b = Ok (Some f, p) -> 0 <= file_ext f.
+
+Lemma fv_body_np pol data o r : bytes_ok data = true -> np (fv_body rf pol data o r).
+Proof.
+  intros OK. unfold fv_body.
+  destruct (zlen data <? 64) eqn:L64; [reflexivity|].
+  apply np_bind.
+  { apply parse_blocks_np. rewrite zlen_zskipn_gen by lia. pose proof (zlen_nonneg data). lia. }
+  intros blocks _.
+  destruct (set_polarity _ _) as [pol1|]; [|reflexivity].
+  destruct (zlen data <? rd 32 8 data) eqn:LL; [reflexivity|].
+  destruct (rd 32 8 data <? 64) eqn:L2; [reflexivity|].
+  destruct (negb _); [reflexivity|].
+  apply np_bind; [|intros [[files pol2] fs] _; reflexivity].
+  apply (files_loop_np rf rf_np rf_ext); auto; [lia|].
+  pose proof (rd_nonneg 48 2 data OK). pose proof (rd_nonneg 52 2 data OK).
+  match goal with |- _ - align8 ?x < _ => pose proof (align8_bounds x); assert (0 <= x) end.
+  { destruct (_ && _); [|lia]. pose proof (rd_nonneg (rd 52 2 data + 16) 4 data OK). lia. }
+  lia.
+Qed.
+
+End NPVol.
+
+Section NPLift.
+Variable dec : Z -> bytes -> option bytes.
+Variable u2s : bytes -> bytes.
+Variable nvar : bytes -> option bytes.
+Hypothesis Hdec : dec_ok dec.
+
+Notation psec := (parse_section dec u2s nvar).
+Notation pfile := (parse_file dec u2s nvar).
+Notation pfv := (parse_fv dec u2s nvar).
+
+Lemma psec_ext d pol b i n p : bytes_ok b = true -> psec d pol b i = Ok (n, p) -> 0 <= sec_ext n.
+Proof.
+  intros OK H. apply (parse_post dec u2s nvar Hdec d) in H as (h & kids & -> & E & _); auto.
+  cbn [sec_ext]. lia.
+Qed.
+
+Lemma pfile_ext d pol b f p : bytes_ok b = true -> pfile d pol b = Ok (Some f, p) -> 0 <= file_ext f.
+Proof.
+  intros OK H. apply (parse_post dec u2s nvar Hdec d) in H as (h & kids & -> & E & _); auto.
+  cbn [file_ext]. lia.
+Qed.
+
+Theorem parse_np d :
+  (forall pol b i, bytes_ok b = true -> np (psec d pol b i)) /\
+  (forall pol b, bytes_ok b = true -> np (pfile d pol b)) /\
+  (forall pol b o r, bytes_ok b = true -> np (pfv d pol b o r)).
+Proof.
+  induction d as [|d (IS & IF & IV)]; [split; [|split]; intros; reflexivity|].
+  split; [|split].
+  - intros pol b i OK. rewrite parse_section_S.
+    apply section_body_np; auto. intros; eapply psec_ext; eauto.
+  - intros pol b OK. rewrite parse_file_S.
+    apply file_body_np; auto. intros; eapply psec_ext; eauto.
+  - intros pol b o r OK. rewrite parse_fv_S.
+    apply fv_body_np; auto. intros; eapply pfile_ext; eauto.
+Qed.
+
+Lemma parse_bios_np d n : forall pol buf abs, bytes_ok buf = true -> zlen buf < Z.of_nat n ->
+  np (parse_bios dec u2s nvar d n pol buf abs).
+Proof.
+  induction n as [|n IH]; intros pol buf abs OK M; cbn [parse_bios].
+  - pose proof (zlen_nonneg buf). lia.
+  - destruct (find_fv_offset buf <? 0) eqn:L0; [reflexivity|].
+    apply np_bind; [apply parse_np, bytes_ok_zskipn, OK|].
+    intros [v pol'] Hv.
+    apply parse_fv_inv in Hv as (h & kids & -> & LL & _).
+    rewrite zlen_zskipn_gen in LL by lia.
+    destruct (v_length h =? 0); [reflexivity|].
+    apply np_bind; [|intros [r pol''] _; reflexivity].
+    apply IH; [apply bytes_ok_zskipn, OK|].
+    rewrite zlen_zskipn_gen by lia. lia.
+Qed.
+
+Theorem parse_region_np d buf : bytes_ok buf = true -> np (parse_region dec u2s nvar d buf).
+Proof.
+  intros OK. unfold parse_region. apply parse_bios_np; auto. pose proof (zlen_nonneg buf). lia.
+Qed.
+
+End NPLift.
+
+(* ------------------------------------------------------------------ *)
+(* C05: Fuel comes from the depth only (outcomes are stable in d)      *)
+(* ------------------------------------------------------------------ *)
+
+Ltac ref_step :=
+  match goal with
+  | |- refines ?x ?x => apply refines_refl
+  | |- refines (bind _ _) (bind _ _) => apply refines_bind; [|intros]
+  | |- refines (if ?c then _ else _) (if ?c then _ else _) => destruct c
+  | |- refines (match ?x with _ => _ end) (match ?x with _ => _ end) => destruct x
+  end.
+
+Section RefLoopS.
+Variable rs rs' : Z -> bytes -> Z -> outcome (node * Z).
+Hypothesis rs_ref : forall pol b i, refines (rs pol b i) (rs' pol b i).
+
+Lemma sections_loop_refines n : forall b pol off i,
+  refines (sections_loop rs n b pol off i) (sections_loop rs' n b pol off i).
+Proof.
+  induction n as [|n IH]; intros; cbn [sections_loop]; [apply refines_refl|].
+  ref_step; [|apply refines_refl].
+  apply refines_bind; [apply rs_ref|]. intros [s pol'].
+  ref_step; [apply refines_refl|].
+  apply refines_bind; [apply IH|]. intros; apply refines_refl.
+Qed.
+
+End RefLoopS.
+
+Section RefLoopF.
+Variable rf rf' : Z -> bytes -> outcome (option node * Z).
+Hypothesis rf_ref : forall pol b, refines (rf pol b) (rf' pol b).
+
+Lemma files_loop_refines n : forall data length pol off,
+  refines (files_loop rf n data length pol off) (files_loop rf' n data length pol off).
+Proof.
+  induction n as [|n IH]; intros; cbn [files_loop]; [apply refines_refl|].
+  ref_step; [|apply refines_refl].
+  ref_step; [apply refines_refl|].
+  apply refines_bind; [apply rf_ref|]. intros [[f|] pol']; [|apply refines_refl].
+  ref_step; [apply refines_refl|].
+  apply refines_bind; [apply IH|]. intros; apply refines_refl.
+Qed.
+
+Lemma fv_body_refines pol data o r :
+  refines (fv_body rf pol data o r) (fv_body rf' pol data o r).
+Proof.
+  unfold fv_body. cbv zeta.
+  ref_step; [apply refines_refl|].
+  apply refines_bind; [apply refines_refl|]. intros blocks.
+  ref_step; [|apply refines_refl].
+  ref_step; [apply refines_refl|].
+  ref_step; [apply refines_refl|].
+  ref_step; [apply refines_refl|].
+  apply refines_bind; [apply files_loop_refines|]. intros; apply refines_refl.
+Qed.
+
+End RefLoopF.
+
+Section RefBodies.
+Variable rs rs' : Z -> bytes -> Z -> outcome (node * Z).
+Hypothesis rs_ref : forall pol b i, refines (rs pol b i) (rs' pol b i).
+Variable dec : Z -> bytes -> option bytes.
+Variable u2s : bytes -> bytes.
+Variable nvar : bytes -> option bytes.
+
+Lemma file_body_refines pol buf :
+  refines (file_body nvar rs pol buf) (file_body nvar rs' pol buf).
+Proof.
+  unfold file_body. cbv zeta.
+  ref_step; [apply refines_refl|].
+  apply refines_bind; [apply refines_refl|]. intros [ext doff].
+  ref_step; [apply refines_refl|].
+  ref_step; [apply refines_refl|].
+  apply refines_bind; [apply refines_refl|]. intros nv.
+  ref_step; [apply refines_refl|].
+  apply refines_bind; [apply sections_loop_refines; auto|]. intros; apply refines_refl.
+Qed.
+
+Variable rfv rfv' : Z -> bytes -> Z -> bool -> outcome (node * Z).
+Hypothesis rfv_ref : forall pol b o r, refines (rfv pol b o r) (rfv' pol b o r).
+
+Lemma section_body_refines pol buf i :
+  refines (section_body dec u2s rs rfv pol buf i) (section_body dec u2s rs' rfv' pol buf i).
+Proof.
+  unfold section_body. cbv zeta.
+  ref_step; [apply refines_refl|].
+  apply refines_bind; [apply refines_refl|]. intros [hlen ext].
+  ref_step; [apply refines_refl|].
+  ref_step.
+  { ref_step; [apply refines_refl|]. ref_step; [apply refines_refl|].
+    apply refines_bind; [apply refines_refl|]. intros [encap kind'].
+    apply refines_bind; [apply sections_loop_refines; auto|]. intros; apply refines_refl. }
+  ref_step; [apply refines_refl|].
+  ref_step; [apply refines_refl|].
+  ref_step; [|apply refines_refl].
+  ref_step; [apply refines_refl|].
+  apply refines_bind; [apply rfv_ref|]. intros; apply refines_refl.
+Qed.
+
+End RefBodies.
+
+Section RefLift.
+Variable dec : Z -> bytes -> option bytes.
+Variable u2s : bytes -> bytes.
+Variable nvar : bytes -> option bytes.
+
+Notation psec := (parse_section dec u2s nvar).
+Notation pfile := (parse_file dec u2s nvar).
+Notation pfv := (parse_fv dec u2s nvar).
+
+Theorem parse_refines d :
+  (forall pol b i, refines (psec d pol b i) (psec (S d) pol b i)) /\
+  (forall pol b, refines (pfile d pol b) (pfile (S d) pol b)) /\
+  (forall pol b o r, refines (pfv d pol b o r) (pfv (S d) pol b o r)).
+Proof.
+  induction d as [|d (IS & IF & IV)]; [split; [|split]; intros; left; reflexivity|].
+  split; [|split]; intros.
+  - rewrite (parse_section_S _ _ _ (S d)), (parse_section_S _ _ _ d).
+    apply section_body_refines; auto.
+  - rewrite (parse_file_S _ _ _ (S d)), (parse_file_S _ _ _ d).
+    apply file_body_refines; auto.
+  - rewrite (parse_fv_S _ _ _ (S d)), (parse_fv_S _ _ _ d).
+    apply fv_body_refines; auto.
+Qed.
+
+Lemma parse_bios_refines d n : forall pol buf abs,
+  refines (parse_bios dec u2s nvar d n pol buf abs) (parse_bios dec u2s nvar (S d) n pol buf abs).
+Proof.
+  induction n as [|n IH]; intros; cbn [parse_bios]; [apply refines_refl|].
+  ref_step; [apply refines_refl|].
+  apply refines_bind; [apply parse_refines|]. intros [v pol'].
+  ref_step; [apply refines_refl|].
+  apply refines_bind; [apply IH|]. intros; apply refines_refl.
+Qed.
+
+Theorem parse_region_refines d buf :
+  refines (parse_region dec u2s nvar d buf) (parse_region dec u2s nvar (S d) buf).
+Proof. apply parse_bios_refines. Qed.
+
+End RefLift.
+
+Section RefLe.
+Variable dec : Z -> bytes -> option bytes.
+Variable u2s : bytes -> bytes.
+Variable nvar : bytes -> option bytes.
+
+Lemma parse_region_refines_le d d' buf : (d <= d')%nat ->
+  refines (parse_region dec u2s nvar d buf) (parse_region dec u2s nvar d' buf).
+Proof.
+  induction 1 as [|d' L IH]; [apply refines_refl|].
+  eapply refines_trans; [exact IH|apply parse_region_refines].
+Qed.
+
+Lemma parse_section_refines_le d d' pol b i : (d <= d')%nat ->
+  refines (parse_section dec u2s nvar d pol b i) (parse_section dec u2s nvar d' pol b i).
+Proof.
+  induction 1 as [|d' L IH]; [apply refines_refl|].
+  eapply refines_trans; [exact IH|apply parse_refines].
+Qed.
+
+Lemma parse_file_refines_le d d' pol b : (d <= d')%nat ->
+  refines (parse_file dec u2s nvar d pol b) (parse_file dec u2s nvar d' pol b).
+Proof.
+  induction 1 as [|d' L IH]; [apply refines_refl|].
+  eapply refines_trans; [exact IH|apply parse_refines].
+Qed.
+
+Lemma parse_fv_refines_le d d' pol b o r : (d <= d')%nat ->
+  refines (parse_fv dec u2s nvar d pol b o r) (parse_fv dec u2s nvar d' pol b o r).
+Proof.
+  induction 1 as [|d' L IH]; [apply refines_refl|].
+  eapply refines_trans; [exact IH|apply parse_refines].
+Qed.
+
+End RefLe.
+
+(* ------------------------------------------------------------------ *)
+(* statements in the form used by Properties/C04.v and C05.v           *)
+(* ------------------------------------------------------------------ *)
+
+Section Statements.
+Variable dec : Z -> bytes -> option bytes.
+Variable u2s : bytes -> bytes.
+Variable nvar : bytes -> option bytes.
+
+Notation psec := (parse_section dec u2s nvar).
+Notation pfile := (parse_file dec u2s nvar).
+Notation pfv := (parse_fv dec u2s nvar).
+
+Lemma section_buf d pol buf i n p : psec d pol buf i = Ok (n, p) ->
+  exists h kids, n = NSec h (sub 0 (s_ext h) buf) kids /\
+    s_ext h <= zlen buf /\ 4 <= zlen buf /\
+    s_size3 h = rd 0 3 buf /\ s_type h = rd 3 1 buf /\
+    (s_hlen h = 4 \/ (s_hlen h = 8 /\ 8 <= zlen buf /\ s_ext h = rd 4 4 buf)).
+Proof.
+  destruct d as [|d]; [discriminate|]. rewrite parse_section_S. intros H.
+  apply section_body_inv in H as (h & kids & -> & L4 & LE & F1 & F2 & _ & HL & _).
+  exists h, kids. repeat split; auto. destruct HL as [[? _]|(? & ? & _ & ?)]; auto.
+Qed.
+
+Lemma section_fields (Hdec : dec_ok dec) d pol buf i h sb kids p : bytes_ok buf = true ->
+  psec d pol buf i = Ok (NSec h sb kids, p) ->
+  0 <= s_ext h /\ sec_fields u2s h sb /\ sec_kids_ok dec h sb kids /\
+  all_ok (node_ok dec u2s) kids.
+Proof.
+  intros OK H. apply (parse_post dec u2s nvar Hdec d) in H as (h' & k' & E & L & NO); auto.
+  injection E as -> -> ->. cbn [node_ok] in NO. split; [lia|exact NO].
+Qed.
+
+Lemma file_buf d pol buf n p : pfile d pol buf = Ok (Some n, p) ->
+  exists h kids, n = NFile h (sub 0 (f_ext h) buf) kids /\
+    f_ext h <= zlen buf /\ 24 <= zlen buf /\ file_hdr_from h buf /\
+    ((f_dataoff h = 24 /\ f_ext h = f_size3 h) \/
+     (f_dataoff h = 32 /\ f_size3 h = 16777215 /\ 32 <= zlen buf /\ f_ext h = rd 24 8 buf)).
+Proof.
+  destruct d as [|d]; [discriminate|]. rewrite parse_file_S. intros H.
+  apply file_body_inv in H as (h & kids & -> & L & LE & HF & HL & _).
+  exists h, kids. repeat split; auto; apply HF.
+Qed.
+
+Lemma file_fields_inside (Hdec : dec_ok dec) d pol buf h fb kids p : bytes_ok buf = true ->
+  pfile d pol buf = Ok (Some (NFile h fb kids), p) ->
+  0 <= f_ext h /\ file_fields h fb /\ secs_tile fb (f_dataoff h) kids /\
+  all_ok (node_ok dec u2s) kids.
+Proof.
+  intros OK H. apply (parse_post dec u2s nvar Hdec d) in H as (h' & k' & E & L & NO); auto.
+  injection E as -> -> ->. cbn [node_ok] in NO. split; [lia|exact NO].
+Qed.
+
+Lemma fv_buf d pol data o r n p : pfv d pol data o r = Ok (n, p) ->
+  exists h kids, n = NVol h (sub 0 (v_length h) data) kids /\
+    64 <= v_length h <= zlen data /\ vol_hdr_from h data /\ v_fvoffset h = o /\ v_resizable h = r.
+Proof. apply parse_fv_inv. Qed.
+
+Lemma fv_fields_inside (Hdec : dec_ok dec) d pol data o r h vb kids p : bytes_ok data = true ->
+  pfv d pol data o r = Ok (NVol h vb kids, p) ->
+  vol_fields h vb /\ files_tile vb (v_dataoff h) kids /\ all_ok (node_ok dec u2s) kids.
+Proof.
+  intros OK H. apply (parse_post dec u2s nvar Hdec d) in H as (h' & k' & E & L & NO); [|exact OK].
+  injection E as -> -> ->. cbn [node_ok] in NO. exact NO.
+Qed.
+
+Lemma region_partition d buf elems p :
+  parse_region dec u2s nvar d buf = Ok (elems, p) ->
+  concat (map node_buf elems) = buf /\ elems_at 0 elems.
+Proof. apply parse_bios_partition. Qed.
+
+Lemma region_nodes_ok (Hdec : dec_ok dec) d buf elems p : bytes_ok buf = true ->
+  parse_region dec u2s nvar d buf = Ok (elems, p) -> all_ok (node_ok dec u2s) elems.
+Proof. apply parse_bios_nodes_ok; auto. Qed.
+
+(* ---- C05 ---- *)
+
+Lemma parsers_no_panic (Hdec : dec_ok dec) d pol buf : bytes_ok buf = true ->
+  (forall i, is_panic (psec d pol buf i) = false) /\
+  is_panic (pfile d pol buf) = false /\
+  (forall o r, is_panic (pfv d pol buf o r) = false).
+Proof.
+  intros OK. destruct (parse_np dec u2s nvar Hdec d) as (A & B & C).
+  split; [|split]; intros; [apply A|apply B|apply C]; auto.
+Qed.
+
+Lemma region_no_panic (Hdec : dec_ok dec) d buf : bytes_ok buf = true ->
+  is_panic (parse_region dec u2s nvar d buf) = false.
+Proof. apply parse_region_np; auto. Qed.
+
+Lemma depth_stable d d' : (d <= d')%nat ->
+  (forall pol b i, psec d pol b i = Fuel \/ psec d' pol b i = psec d pol b i) /\
+  (forall pol b, pfile d pol b = Fuel \/ pfile d' pol b = pfile d pol b) /\
+  (forall pol b o r, pfv d pol b o r = Fuel \/ pfv d' pol b o r = pfv d pol b o r) /\
+  (forall b, parse_region dec u2s nvar d b = Fuel \/
+             parse_region dec u2s nvar d' b = parse_region dec u2s nvar d b).
+Proof.
+  intros L. repeat split; intros.
+  - destruct (parse_section_refines_le dec u2s nvar d d' pol b i L); auto.
+  - destruct (parse_file_refines_le dec u2s nvar d d' pol b L); auto.
+  - destruct (parse_fv_refines_le dec u2s nvar d d' pol b o r L); auto.
+  - destruct (parse_region_refines_le dec u2s nvar d d' b L); auto.
+Qed.
+
+Lemma region_ok_stable d d' b r : (d <= d')%nat ->
+  parse_region dec u2s nvar d b = Ok r -> parse_region dec u2s nvar d' b = Ok r.
+Proof. intros L. apply refines_ok, parse_region_refines_le, L. Qed.
+
+End Statements.
